@@ -13,7 +13,7 @@ ids = sorted(os.listdir('/verif/seeded'))
 def sid(label):
     m = re.match(r'(?:w(\d)-)?(C\d+)-m(\d)', label)
     wave = int(m.group(1) or 1); p = m.group(2); i = int(m.group(3))
-    n = i + {1: 0, 2: 3, 3: 5}[wave]
+    n = i + {1: 0, 2: 3, 3: 5, 4: 7}[wave]
     for d in ids:
         if d.startswith(f'{p}-{n:02d}-'): return d
     return label
